@@ -1967,8 +1967,8 @@ pub fn run(ctx: &mut Ctx, profile: Profile) -> &'static str {
 
     // ---- generated batches ----
     let n_cases = match profile {
-        Profile::C06 => ctx.n(700, 6000),
-        Profile::C12 => ctx.n(2500, 30000),
+        Profile::C06 => ctx.n(1200, 6000),
+        Profile::C12 => ctx.n(4000, 30000),
     };
     for k in 0..n_cases {
         let mut rng = Rng::for_case(ctx.seed, tag, k as u64);
